@@ -36,7 +36,22 @@ Theorem C12_blob_exact : forall (old : option (list byte)) (new : list byte),
   write_blob old new = new.
 Proof. exact write_blob_exact. Qed.
 
+(* interruption after any number k of checkpoint writes: the dataset holds, byte for byte, the
+   last payload written before the interruption (the older content when nothing was written yet),
+   and it is always one whole payload, never a mixture *)
+Theorem C12_file_after_interruption : forall (old : option (list byte)) (blobs : list (list byte)) k,
+  file_after old (firstn k blobs)
+  = match firstn k blobs with [] => old | _ => Some (last (firstn k blobs) []) end.
+Proof. exact file_after_interruption. Qed.
+Theorem C12_file_is_one_whole_payload : forall (old : option (list byte)) (blobs : list (list byte)) k b,
+  file_after old (firstn k blobs) = Some b -> old = Some b \/ In b blobs.
+Proof. exact file_after_is_a_payload. Qed.
+Example C12_interruption_nonvacuous :
+  file_after (Some [x01; x02; x03]%byte) (firstn 2 [[x0a]; [x0b; x0c]; [x0d]]%byte) = Some [x0b; x0c]%byte.
+Proof. reflexivity. Qed.
 Print Assumptions C12_cadence.
 Print Assumptions C12_cadence_rule.
 Print Assumptions C12_payload_is_current.
 Print Assumptions C12_blob_exact.
+Print Assumptions C12_file_after_interruption.
+Print Assumptions C12_file_is_one_whole_payload.
